@@ -209,7 +209,11 @@ def run_shard(spec, col: Collector):
         else:
             h2, w2 = pairs[(k * 7 + 5) % len(pairs)]
             third = {"kind": "task", "how": h2, "when": w2, "role": "middle" if w2 == "mid" else ROLES[k % 4], "shape": SHAPES[(k + 1) % 4]}
-        mine = [first, second, third][: max(1, spec["n"])]
+        h3, w3 = pairs[(k * 3 + 11) % len(pairs)]
+        fourth = {"kind": "task", "how": h3, "when": w3, "role": "middle" if w3 == "mid" else ROLES[(k + 2) % 4], "shape": SHAPES[(k + 2) % 4]}
+        what5, sig5, at5 = KILLS[(k + 6) % len(KILLS)]
+        fifth = {"kind": "kill", "what": what5, "signal": sig5, "at": at5, "shape": SHAPES[(k + 3) % 4], "host": 0}
+        mine = [first, second, third, fourth, fifth][: max(1, spec["n"])]
     else:
         extra = []
         rng = case_rng(seed, shard, "extra")
@@ -227,6 +231,6 @@ def run_shard(spec, col: Collector):
 
 def plan(tier, seed, scale=1.0):
     q = tier == "quick"
-    nsh = 16
-    return [dict(shard=f"r{c}", shard_no=c, nshards=nsh, n=max(1, int(3 * scale)), n_random=int(30 * scale), budget_s=100 if q else 1500, timeout_s=280 if q else 2400,
+    nsh = 8   # real clusters: ~11 processes per scenario; more concurrent scenarios than that starve the 16 cores and the starvation itself loses local messages
+    return [dict(shard=f"r{c}", shard_no=c, nshards=nsh, n=max(1, int(5 * scale)), n_random=int(40 * scale), budget_s=100 if q else 1500, timeout_s=280 if q else 2400,
                  hash_seed=(seed * 79 + c) % 4294967295) for c in range(nsh)]
